@@ -14,7 +14,7 @@ from . import sigma as sg
 from .core import OutOfReach, PathInfeasible, TooManyPaths
 from .harness import ConcreteBackend, OutOfContract, SymBackend
 
-TIMEOUT_MS = int(os.environ.get("PVC_TIMEOUT_MS", "20000"))
+TIMEOUT_MS = int(os.environ.get("PVC_TIMEOUT_MS", "10000"))
 RLIMIT = int(os.environ.get("PVC_RLIMIT", "0"))
 
 
@@ -91,6 +91,10 @@ class _FakeCtx:
         self.n += 1
         return z3.Int("%s!sf%d" % (base, self.n))
 
+    def fresh(self, base):
+        self.n += 1
+        return "%s!sf%d" % (base, self.n)
+
 
 def sigma_facts(ob, axioms, depth=2):
     """Sum facts (proved in lemmas/SigmaRules.lean): for a sum whose summand is provably
@@ -122,6 +126,31 @@ def sigma_facts(ob, axioms, depth=2):
                 # empty range => 0
                 for v, n in binders:
                     facts.append(z3.Implies(n <= 0, app == 0))
+                if len(binders) == 2:
+                    # partial sums of a non-negative double sum are bounded by it
+                    (v1, n1), (v2, n2) = binders
+                    for (fv, fn_), (sv, sn) in (((v1, n1), (v2, n2)), ((v2, n2), (v1, n1))):
+                        try:
+                            part = sg.multi_sigma([(sv, sn)], body, fc)
+                            facts.append(
+                                z3.ForAll([fv], z3.Implies(z3.And(fv >= 0, fv < fn_), z3.And(part <= app, part >= 0)))
+                            )
+                        except Exception:
+                            pass
+            if len(binders) >= 2:
+                # a binder whose range is a singleton can be eliminated
+                for bi, (v, n) in enumerate(binders):
+                    others = [b for j, b in enumerate(binders) if j != bi]
+                    try:
+                        red = sg.multi_sigma(others, z3.substitute(body, (v, z3.IntVal(0))), fc)
+                        facts.append(z3.Implies(n == 1, app == red))
+                        frontier.append(red)
+                    except Exception:
+                        pass
+            if len(binders) == 1:
+                v, n = binders[0]
+                facts.append(z3.Implies(n == 1, app == z3.substitute(body, (v, z3.IntVal(0)))))
+                facts.append(z3.Implies(n <= 0, app == 0))
             frontier.append(body)
     return facts
 
@@ -319,27 +348,104 @@ def replay_concrete(contract, cfg, sizes, values):
     return CB.failures, exc, CB.checked
 
 
+def _canon_sizes(d, space):
+    """lengths of subtotals that do not exist (index >= S) are irrelevant: normalise"""
+    import re
+
+    out = dict(d)
+    for name in d:
+        mm = re.match(r"^(.*)\.(add|sub)\.n\[(\d+)\]$", name)
+        if mm and (mm.group(1) + ".S") in d and int(mm.group(3)) >= d[mm.group(1) + ".S"]:
+            out[name] = space[name][0]
+    return out
+
+
 def size_configs(contract, cfg, seed, cap=60):
+    """candidate concrete size assignments: small total first, shuffled within a total"""
     space = contract.size_space(cfg)
     if not space:
         return [{}]
     names = sorted(space)
     doms = [space[n] for n in names]
-    allc = [dict(zip(names, c)) for c in itertools.product(*doms)]
-    # small first, then seeded shuffle of the rest
-    allc.sort(key=lambda d: sum(d.values()))
-    head, tail = allc[: cap // 2], allc[cap // 2 :]
+    total = 1
+    for d in doms:
+        total *= len(d)
     rnd = random.Random(seed)
-    rnd.shuffle(tail)
-    return head + tail[: cap - len(head)]
+    seen = set()
+    out = []
+    if total <= 300000:
+        allc = []
+        for c in itertools.product(*doms):
+            d = _canon_sizes(dict(zip(names, c)), space)
+            key = tuple(d[n] for n in names)
+            if key in seen:
+                continue
+            seen.add(key)
+            allc.append(d)
+        rnd.shuffle(allc)
+        allc.sort(key=lambda d: sum(d.values()))
+        return allc[:cap]
+    # very large spaces: random sampling biased to small values
+    for _ in range(cap * 20):
+        d = _canon_sizes({n: rnd.choice(space[n][: rnd.randint(1, len(space[n]))]) for n in names}, space)
+        key = tuple(d[n] for n in names)
+        if key in seen:
+            continue
+        seen.add(key)
+        out.append(d)
+        if len(out) >= cap:
+            break
+    out.sort(key=lambda d: sum(d.values()))
+    return out
 
 
-def find_counterexample(contract, repo, cfg, ob_name, seed=0, budget_s=60):
+def hint_sizes(contract, cfg, ob, po):
+    """size configuration suggested by the (candidate) model of the failed tier-P query.
+    The model may be spurious w.r.t. the Sigma abstraction; only its sizes are used."""
+    import re
+
+    s = _mk_solver(ob, po.axioms, 5000)
+    r = s.check()
+    if r == z3.unsat:
+        return None
+    try:
+        m = s.model()
+    except z3.Z3Exception:
+        return None
+    B = po.backend
+    space = contract.size_space(cfg)
+    sizes = {}
+    for name, dom in space.items():
+        v = None
+        try:
+            if name in B.size_syms:
+                v = _model_value(m, zi_(B.size_syms[name]))
+            else:
+                mm = re.match(r"^(.*)\[(\d+)\]$", name)
+                if mm and mm.group(1) in B.size_fns:
+                    v = _model_value(m, B.size_fns[mm.group(1)](z3.IntVal(int(mm.group(2)))))
+        except Exception:
+            v = None
+        if v is None:
+            v = dom[0]
+        v = int(v)
+        sizes[name] = min(max(v, min(dom)), max(dom) + 1)
+    return sizes
+
+
+def zi_(x):
+    return core.zi(x)
+
+
+def find_counterexample(contract, repo, cfg, ob_name, seed=0, budget_s=60, hint=None):
     """search small sizes (mode B) for a model refuting `ob_name`, then replay it (mode C).
     -> dict(found, sizes, values, failures, exc) or None"""
     t0 = time.time()
     tried = 0
-    for sizes in size_configs(contract, cfg, seed):
+    cands = size_configs(contract, cfg, seed, cap=20000)
+    if hint:
+        cands = [hint] + cands
+    for sizes in cands:
         if time.time() - t0 > budget_s:
             break
         try:
@@ -365,3 +471,82 @@ def find_counterexample(contract, repo, cfg, ob_name, seed=0, budget_s=60):
                         obligation=ob.name, tried=tried, msg=(ob.info or {}).get("msg"),
                     )
     return dict(found=False, tried=tried)
+
+
+def verify_bounded(contract, repo, cfg, seed, thorough=False):
+    """Bounded stand-in (tier B): same contract and VC generator, concrete sizes from the
+    contract's size space, symbolic contents, path-complete.  Never counted as proved."""
+    cap = 60 if thorough else 14
+    by_name = {}
+    failed = []
+    n_cfg = n_oor = 0
+    sizes_seen = []
+    for sizes in size_configs(contract, cfg, seed, cap=cap):
+        try:
+            out = verify_config(contract, repo, cfg, sizes=sizes, timeout_ms=10000)
+        except KeyError:
+            continue
+        if out["oor"]:
+            n_oor += 1
+            by_name.setdefault("out-of-reach", dict(status="unknown", secs=0.0, kind="reach", detail=out["oor"]))
+            continue
+        n_cfg += 1
+        sizes_seen.append(sizes)
+        for r in out["results"]:
+            rec = by_name.setdefault(r.name.split("[")[0], dict(status="proved", secs=0.0, kind=r.kind, detail=None))
+            rec["secs"] += r.secs
+            if r.status != "proved" and rec["status"] == "proved":
+                rec["status"] = r.status
+                rec["detail"] = r.detail
+        seen = set()
+        for pi, ob, po in out["fails"]:
+            if ob.name in seen:
+                continue
+            seen.add(ob.name)
+            status, secs, model = discharge(ob, po.axioms, 10000, want_model=True)
+            rp = None
+            if status == "refuted" and model is not None:
+                try:
+                    values = extract_values(po.backend, model)
+                    failures, exc, checked = replay_concrete(contract, cfg, sizes, values)
+                    if failures or exc:
+                        rp = dict(found=True, sizes=sizes, values=values, failures=failures, exc=exc,
+                                  obligation=ob.name, msg=(ob.info or {}).get("msg"))
+                except Exception as e:  # extraction problem: undecided
+                    rp = None
+            failed.append(dict(name=ob.name, replay=rp, reason="bounded obligation %s at sizes %s" % (status, sizes)))
+        if failed:
+            break
+    results = [ObResult(n, r["status"], r["secs"], r["kind"], r["detail"], "B") for n, r in by_name.items()]
+    return dict(results=results, failed=failed,
+                summary=dict(size_configs=n_cfg, out_of_reach_configs=n_oor, bound=contract.size_space(cfg)))
+
+
+def conform(contract, cfg, seed, n=4):
+    """Facade / contract validation: run the contract in mode C (installed package, real
+    numpy) on random inputs drawn from the contract's state description."""
+    import zlib
+
+    rnd = random.Random((zlib.crc32((contract.name + cfg_key(cfg)).encode()) & 0xFFFFFF) * 7919 + seed)
+    space = contract.size_space(cfg)
+    fails = []
+    runs = 0
+    import warnings
+
+    for _ in range(n):
+        sizes = {k: rnd.choice(v) for k, v in space.items()}
+        CB = harness.RandomConcreteBackend(rnd, sizes)
+        try:
+            with warnings.catch_warnings():
+                warnings.simplefilter("ignore")
+                contract.run(CB, cfg)
+            runs += 1
+            if CB.failures:
+                fails.append(dict(found=True, sizes=sizes, values=CB.values, failures=CB.failures, exc=None))
+        except harness.SkipInput:
+            continue
+        except Exception as e:
+            runs += 1
+            fails.append(dict(found=True, sizes=sizes, values=CB.values, failures=[],
+                              exc="%s: %s" % (type(e).__name__, e)))
+    return dict(runs=runs, failures=fails)
